@@ -118,11 +118,11 @@ theorem timestampTypeNewTests_eq : Gen.Conv.timestampTypeNewTests =
 theorem timestampTypeStrBranch_eq : Gen.Conv.timestampTypeStrBranch =
     "parsed_datetime = cast(datetime.datetime, pendulum.parse(source)); parsed_datetime.utcoffset(); return super().__new__(cls, year=parsed_datetime.year, month=parsed_datetime.month, day=parsed_datetime.day, hour=parsed_datetime.hour, minute=parsed_datetime.minute, second=parsed_datetime.second, microsecond=parsed_datetime.microsecond, tzinfo=parsed_datetime.tzinfo)" := rfl
 theorem intTypeStr_eq : Gen.Conv.intTypeStr =
-    "text = str(int(self))\nreturn text" := rfl
+    "return str(int(self))" := rfl
 theorem uintTypeStr_eq : Gen.Conv.uintTypeStr =
-    "text = str(int(self))\nreturn text" := rfl
+    "return str(int(self))" := rfl
 theorem doubleTypeStr_eq : Gen.Conv.doubleTypeStr =
-    "text = str(float(self))\nreturn text" := rfl
+    "return str(float(self))" := rfl
 theorem boolTypeStr_eq : Gen.Conv.boolTypeStr =
     "return str(bool(self))" := rfl
 theorem timestampTypeStr_eq : Gen.Conv.timestampTypeStr =
